@@ -750,6 +750,52 @@ fn relative_invocation(w: &mut Worker) {
             }
         }
     }
+    // an include that names a file which is NOT there (relative to the including file) fails the parse with
+    // that file's name - also when a file of the same relative name can be reached from the working
+    // directory, or from the directory of the root script
+    mk("miss/main.ds", "!include_files ./lib/a.ds\ndone = set yes");
+    mk("miss/lib/a.ds", "!include_files lib/util.ds\nvia = set a");
+    mk("miss/lib/util.ds", "where = set decoy_next_to_the_root");
+    mk("miss/direct.ds", "!include_files nothere/util.ds\ndone = set yes");
+    mk("miss/cwd/nothere/util.ds", "where = set decoy_in_the_working_directory");
+    mk("miss/cwd/lib/util.ds", "where = set decoy_in_the_working_directory");
+    for (cwd, root, missing) in [
+        ("miss", "main.ds", "lib/lib/util.ds"),
+        ("miss", "./main.ds", "lib/lib/util.ds"),
+        ("", "miss/main.ds", "lib/lib/util.ds"),
+        ("miss/cwd", "../main.ds", "lib/lib/util.ds"),
+        ("miss/cwd", "../direct.ds", "nothere/util.ds"),
+        ("miss", "direct.ds", "nothere/util.ds"),
+    ] {
+        if !w.take() {
+            continue;
+        }
+        let cj = json!({"kind": "relative-invocation-missing", "cwd": cwd, "root": root});
+        w.begin(|| cj.clone());
+        w.add_transitions(1);
+        if std::env::set_current_dir(top.join(cwd)).is_err() {
+            w.fail("harness:chdir", "cannot enter the working directory", cj);
+            continue;
+        }
+        let (env, _o, _e, _h) = quiet_env();
+        let r = guarded(|| duckscript::runner::run_script_file(root, sdk_context(), Some(env)));
+        match r {
+            Err(p) => w.fail("panic", &p, cj),
+            Ok(Ok(c)) => w.fail(
+                "missing-include:accepted",
+                &format!("{} started in {:?} includes a file that does not exist ({}), yet it ran: where = {:?}", root, cwd, missing, c.variables.get("where")),
+                cj,
+            ),
+            Ok(Err(e)) => {
+                let m = e.to_string();
+                if m.contains("util.ds") {
+                    w.pass(true, hash64(&("relative-invocation-missing", root)));
+                } else {
+                    w.fail("missing-include:error-does-not-name-the-file", &format!("{} started in {:?}: {}", root, cwd, m), cj);
+                }
+            }
+        }
+    }
     if let Some(b) = before {
         let _ = std::env::set_current_dir(b);
     }
@@ -1022,7 +1068,7 @@ pub fn crash_sig(_case: &Value, kind: &str) -> String {
     kind.to_string()
 }
 
-pub const RULE: &str = "include structures: four files r.ds, d1/a.ds, d1/d2/b.ds, c.ds; every assignment of an include directive (none / one file / two files / the same file twice, listed in one directive, at the first, middle or last line) to each file such that a file only includes files later in the order (two orders: descending into and climbing out of the nested directories), unreachable files normalised away, x path style {./relative, plain relative, absolute}. Faults (on every n-th structure): each include edge pointing to a missing file; a malformed line at every (reachable file, line); a trigger_error at every (reachable file, line); two handled errors in different files (the later one is the last error: its line and its file); pairs of faults (a missing edge or a malformed line in an included file together with a malformed last line of the root file: the one that comes first in the pasted text must be reported). Oracle: parse_file(root) minus directive instructions equals parse_text of the recursively pasted text; every instruction carries the file it came from (compared as canonical paths) and its line in that file; running the file and the pasted text gives the same emit trace and variables; a missing file fails the parse with ErrorReadingFile naming that file; a malformed line fails with its kind, its own line and its own file; get_last_error_line/_source name the included file and line. Scale cases: a chain of 12/40 (thorough 150) files each including the next across two directories, a chain through files whose names differ only in letter case, one directive listing 12/100 (thorough 1000) files, an included file of 5000 (thorough 200000) lines: instruction order, file and line of every instruction. Parse-time output: 8 include shapes with !print lines (a file included once, twice on two lines, twice on one line, three times, a diamond, a nested file twice, prints only below, another file between) x relative / absolute paths, run in a child process against the pasted text run in a child process: same exit status, same standard output. Blocks across files: 11 shapes (if / while / for / fn / nested blocks opened in one file and closed in another, the directive last in its file or not, else in an included file) x relative / absolute paths: final variables of the include structure equal those of the pasted text. Six more shapes: a file defining a function / a scoped function / an alias / a label included twice (two lines, one line, a diamond). Seven shapes with files that hold nothing (zero bytes), a blank or only a comment, first / between / last in a directive and in a nested directive. Relative invocation: 12 cases of (working directory, relative path of the root, includes that climb up to three levels above it), with files of the same name and other contents on the way: the file the directive names is the one that is read Revisit: 2..300 (thorough 1025) files included by relative path one directive after the other, then again forwards, backwards, every third one, and pairwise from a file in the other directory under another spelling of the path. Errors name their file: a function of one included file calls a function of another included file whose line 6 reports an error (and: a function whose body holds an include directive, the error on line 3 of the included file), called as a plain line, for its value, as the condition of if / elseif / while and under not: get_last_error_source is the file the failing line is in, get_last_error_line its line there, the run goes on.";
+pub const RULE: &str = "include structures: four files r.ds, d1/a.ds, d1/d2/b.ds, c.ds; every assignment of an include directive (none / one file / two files / the same file twice, listed in one directive, at the first, middle or last line) to each file such that a file only includes files later in the order (two orders: descending into and climbing out of the nested directories), unreachable files normalised away, x path style {./relative, plain relative, absolute}. Faults (on every n-th structure): each include edge pointing to a missing file; a malformed line at every (reachable file, line); a trigger_error at every (reachable file, line); two handled errors in different files (the later one is the last error: its line and its file); pairs of faults (a missing edge or a malformed line in an included file together with a malformed last line of the root file: the one that comes first in the pasted text must be reported). Oracle: parse_file(root) minus directive instructions equals parse_text of the recursively pasted text; every instruction carries the file it came from (compared as canonical paths) and its line in that file; running the file and the pasted text gives the same emit trace and variables; a missing file fails the parse with ErrorReadingFile naming that file; a malformed line fails with its kind, its own line and its own file; get_last_error_line/_source name the included file and line. Scale cases: a chain of 12/40 (thorough 150) files each including the next across two directories, a chain through files whose names differ only in letter case, one directive listing 12/100 (thorough 1000) files, an included file of 5000 (thorough 200000) lines: instruction order, file and line of every instruction. Parse-time output: 8 include shapes with !print lines (a file included once, twice on two lines, twice on one line, three times, a diamond, a nested file twice, prints only below, another file between) x relative / absolute paths, run in a child process against the pasted text run in a child process: same exit status, same standard output. Blocks across files: 11 shapes (if / while / for / fn / nested blocks opened in one file and closed in another, the directive last in its file or not, else in an included file) x relative / absolute paths: final variables of the include structure equal those of the pasted text. Six more shapes: a file defining a function / a scoped function / an alias / a label included twice (two lines, one line, a diamond). Seven shapes with files that hold nothing (zero bytes), a blank or only a comment, first / between / last in a directive and in a nested directive. Relative invocation: 12 cases of (working directory, relative path of the root, includes that climb up to three levels above it), with files of the same name and other contents on the way: the file the directive names is the one that is read Revisit: 2..300 (thorough 1025) files included by relative path one directive after the other, then again forwards, backwards, every third one, and pairwise from a file in the other directory under another spelling of the path. Errors name their file: a function of one included file calls a function of another included file whose line 6 reports an error (and: a function whose body holds an include directive, the error on line 3 of the included file), called as a plain line, for its value, as the condition of if / elseif / while and under not: get_last_error_source is the file the failing line is in, get_last_error_line its line there, the run goes on. Missing relative includes: 6 starts (4 working directories) of scripts whose include names a file that is not there relative to the including file while files of the same relative name lie in the working directory and next to the root script: the parse fails and names the file.";
 pub const ASSUMPTIONS: &[&str] = &["cyclic includes are outside the property (C07 probes them)", "the scratch directory is on a local file system without symlinks"];
 pub const EXHAUSTIVE: bool = true;
 pub const WALL_CAP_S: (u64, u64) = (55, 1500);
